@@ -745,17 +745,26 @@ class HostConnectionPool(object):
         log.debug("Going to open new connection to host %s", self.host)
         try:
             conn = self._session.cluster.connection_factory(self.host.endpoint, on_orphaned_stream_released=self.on_orphaned_stream_released)
+            added = False
             while True:
                 keyspace = self._keyspace
                 if keyspace:
                     conn.set_keyspace_blocking(keyspace)
                 with self._lock:
+                    if self.is_shutdown:
+                        self.open_count -= 1
+                        break
                     # add the connection only if the keyspace was not switched meanwhile
                     # (see _set_keyspace_for_all_conns); otherwise select the new one first
                     if self._keyspace == keyspace:
                         new_connections = self._connections[:] + [conn]
                         self._connections = new_connections
+                        added = True
                         break
+            if not added:
+                # the pool was shut down while the new connection was being opened
+                conn.close()
+                return True
             self._next_trash_allowed_at = time.time() + _MIN_TRASH_INTERVAL
             log.debug("Added new connection (%s) to pool for host %s, signaling availability",
                       id(conn), self.host)
